@@ -316,6 +316,18 @@ async def post_checks(res, flavor: str):
     facts["orphans"] = [{"tr": t.id, "target": list(t.target), "opened_by": t.opened_by, "layers": len(t.layers)}
                         for t in open_now if t.id not in owned]
     facts["owned_per_conn"] = [len(owned_transports(c) & {t.id for t in open_now}) for c in conns]
+    # reuse probe: the single injection is over and the endpoints are healthy, so whatever the pool still offers for the
+    # victim's origin must be able to serve a request ("idle, so that it can be reused")
+    net.faults.clear()
+    CALL.set("reuse")
+    reuse = await guarded(flavor, lambda: api.request("GET", sc.url(), headers=[("X-Token", "reuse")],
+                                                      extensions={"timeout": {"pool": 1.0}}))
+    if reuse.kind == "ok":
+        facts["reuse_probe"] = "ok" if reuse.value.status == 200 else f"status-{reuse.value.status}"
+    else:
+        facts["reuse_probe"] = exc_name(reuse.exc) if reuse.kind == "exc" else reuse.kind
+    facts["reuse_probe_conns"] = [conn_state(c) for c in pool.connections]
+    CALL.set("post")
     # capacity probe through the public API
     n = min(sc.max_connections, len(sc.probes))
     opened = []
